@@ -5,6 +5,8 @@ From Coq Require Import List Bool ZArith NArith Arith Lia.
 Import ListNotations.
 From Gnmi Require Import Manager.ManagerModel Manager.ManagerCheck Manager.ManagerProofs.
 
+Ltac unrec0 := cbn [s_pc s_rmc s_cdone s_sdone s_rc s_hu s_stale s_phu s_add s_x s_rr set_pc] in *.
+
 (** * Declarative readings of K4 *)
 
 Fixpoint no_remove_ok (tr : list event) : bool :=
@@ -39,6 +41,7 @@ Proof.
     + cbn in Hn. destruct k; try (destruct ok0; [discriminate|]);
         apply andb_true_iff in H; destruct H as [_ H]; try (destruct ok0);
         eapply K; try exact H; lia.
+    + apply andb_true_iff in H. destruct H as [_ H]. eapply K; eauto.
 Qed.
 
 Lemma k_refuse_suffix a : forall m rmp b,
@@ -68,6 +71,7 @@ Proof.
     + destruct ok0; cbn in *; try discriminate. eapply IH; eauto.
     + destruct ok0; cbn in *; try discriminate. eapply IH; eauto.
     + destruct k, ok0; cbn in *; try discriminate; eapply IH; eauto.
+    + destruct ok0; cbn in *; try discriminate. eapply IH; eauto.
 Qed.
 
 (** what acceptance of a log by the model implies for the log itself *)
@@ -628,6 +632,27 @@ Proof. intros H. eapply duplicate_add_refused_k. eapply model_refusals; eauto. Q
 Lemma unknown_remove_refused c l ok s :
   run c init (l ++ [ERemoveReturned ok]) s -> no_add_ok l = true -> ok = false.
 Proof. intros H. eapply unknown_remove_refused_k. eapply model_refusals; eauto. Qed.
+
+(** a refused call changes nothing: an Add with invalid arguments is refused in
+    every state and leaves the state as it is, so do a Remove / Reconnect of an
+    unmanaged name; a duplicate Add (call, then refusal) brings the state back *)
+Lemma invalid_add_never_accepted c s : vis c s (EAddInvalid true) = [].
+Proof. reflexivity. Qed.
+
+Lemma refused_call_changes_nothing c s e s' :
+  In s' (vis c s e) ->
+  e = EAddInvalid false \/ e = ERemoveReturned false \/ e = EReconnectReturned false ->
+  s' = s.
+Proof.
+  intros H [E|[E|E]]; subst e; unfold vis in H; inv_in H; auto.
+Qed.
+
+Lemma refused_duplicate_add_changes_nothing c s s1 s2 :
+  managed s = true -> In s1 (vis c s EAddCalled) -> In s2 (vis c s1 (EAdd false)) -> s2 = s.
+Proof.
+  destruct s as [p rmc cd sd rc hu stl phu ad xs rr]. unfold vis, managed. unrec0.
+  intros Hm H1 H2. inv_in H1; subst s1; unrec0; try discriminate; inv_in H2; subst; auto.
+Qed.
 
 (** calls of a second goroutine for the same name during a Remove in progress:
     they get through only after that Remove has completed and the name is
